@@ -74,9 +74,31 @@ class Net:
             self.cells.append(("ADD", self.src("u2"), self.src("u2"), f"self.{o}"))
 
 
+# class name of a leaf template; one kind gets a name that is a VHDL reserved word, so the emitted unit is renamed
+# (Buffer -> e.g. Buffer1) and every instantiation must name the EMITTED unit
+LEAF_NAME = {"XOR": "Buffer"}
+
+
+def lname(kind):
+    return LEAF_NAME.get(kind, "Leaf" + kind)
+
+
+def emitted_matches(emitted, declared_name):
+    """the emitted unit name of a template: its class name, or (renamed on collision) the class name plus a counter"""
+    return emitted == declared_name or (declared_name in LEAF_NAME.values() and re.fullmatch(re.escape(declared_name) + r"\d*", emitted))
+
+
+def inst(rng, cls, pairs):
+    """an instantiation with its keyword arguments in a random order (ports are associated by NAME)"""
+    pairs = list(pairs)
+    if rng is not None:
+        rng.shuffle(pairs)
+    return f"{cls}(" + ", ".join(f"{k}={v}" for k, v in pairs) + ")"
+
+
 def leaf_class(kind):
     ty, body, clocked = KINDS[kind]
-    lines = [f"class Leaf{kind}(cohdl.Entity):"]
+    lines = [f"class {lname(kind)}(cohdl.Entity):"]
     if clocked:
         lines.append("    clk = Port.input(Bit)")
     lines += [f"    a = Port.input({TY[ty]})", f"    b = Port.input({TY[ty]})",
@@ -90,7 +112,7 @@ def leaf_class(kind):
     return lines
 
 
-def mid_class(name, k1, k2, ctx=False):
+def mid_class(name, k1, k2, ctx=False, rng=None):
     """a two-level template: o = k2(k1(a, b), b); ctx: the two instances are created INSIDE a concurrent context"""
     t1, t2 = KINDS[k1][0], KINDS[k2][0]
     assert t1 == t2
@@ -107,9 +129,10 @@ def mid_class(name, k1, k2, ctx=False):
         ind = "            "
     # inside a context a Signal with an initial value counts as written by that context (and the instance writes it too)
     lines += [f"{ind}m = Signal[{TY[t1]}](" + ("Null" if KINDS[k1][2] and not ctx else "") + ")"]
-    c1 = "clk=self.clk, " if KINDS[k1][2] else ""
-    c2 = "clk=self.clk, " if KINDS[k2][2] else ""
-    lines += [f"{ind}Leaf{k1}({c1}a=self.a, b=self.b, o=m)", f"{ind}Leaf{k2}({c2}a=m, b=self.b, o=self.o)"]
+    c1 = [("clk", "self.clk")] if KINDS[k1][2] else []
+    c2 = [("clk", "self.clk")] if KINDS[k2][2] else []
+    lines += [ind + inst(rng, lname(k1), c1 + [("a", "self.a"), ("b", "self.b"), ("o", "m")]),
+              ind + inst(rng, lname(k2), c2 + [("a", "m"), ("b", "self.b"), ("o", "self.o")])]
     return lines
 
 
@@ -140,7 +163,7 @@ def render(net: Net, hier: bool, mids, inl=frozenset()):
         for kind in used:
             lines += leaf_class(kind) + [""]
         for kind, fl in sorted({(net.cells[k][0], fl) for k, fl in mids.items()}):
-            lines += mid_class(f"Mid{'C' if fl == 'ctx' else ''}{kind}", kind, kind, fl == "ctx") + [""]
+            lines += mid_class(f"Mid{'C' if fl == 'ctx' else ''}{kind}", kind, kind, fl == "ctx", net.rng) + [""]
     lines += ["class Top(cohdl.Entity):"] + TOP_PORTS + ["", "    def architecture(self):",
                                                          "        self.bus = Signal[BitVector[4]]()",
                                                          "        self.pbus = Signal[BitVector[4]]()",
@@ -155,15 +178,15 @@ def render(net: Net, hier: bool, mids, inl=frozenset()):
     for k, (kind, a, b, target) in enumerate(net.cells):
         ty, body, clocked = KINDS[kind]
         if hier:
-            c = "clk=self.clk, " if clocked else ""
+            c = [("clk", "self.clk")] if clocked else []
             ind = "        "
             if k in inl:
                 lines += ["        @std.concurrent", f"        def inst_ctx_{k}():"]
                 ind = "            "
             if k in mids:
-                lines.append(f"{ind}Mid{'C' if mids[k] == 'ctx' else ''}{kind}({c}a={a}, b={b}, o={target})")
+                lines.append(ind + inst(net.rng, f"Mid{'C' if mids[k] == 'ctx' else ''}{kind}", c + [("a", a), ("b", b), ("o", target)]))
             else:
-                lines.append(f"{ind}Leaf{kind}({c}a={a}, b={b}, o={target})")
+                lines.append(ind + inst(net.rng, lname(kind), c + [("a", a), ("b", b), ("o", target)]))
         else:
             def inline(kind, a, b, target, suffix):
                 ty, body, clocked = KINDS[kind]
@@ -212,6 +235,9 @@ def check_interface(ck, ents, declared, name, src):
     ok = True
     for e in ents:
         want = declared.get(e.name)
+        if want is None:
+            cand = [w for dn, w in declared.items() if emitted_matches(e.name, dn)]      # a template renamed on emission
+            want = cand[0] if cand else None
         if want is None:
             continue
         got = [(p.name, p.dir, p.ty.kind, p.ty.vk, p.ty.w) for p in e.ports]
@@ -274,15 +300,15 @@ def run(ck: common.Check, replay=None):
         declared = {"Top": decl_of("Top")}
         kinds = {c[0] for c in net.cells}
         for kd in kinds:
-            declared["Leaf" + kd] = decl_of(kd)
+            declared[lname(kd)] = decl_of(kd)
         for i in mids:
             kd = net.cells[i][0]
             declared["Mid" + ("C" if mids[i] == "ctx" else "") + kd] = decl_of(kd)
         ok_if = check_interface(ck, ents_h, declared, name, hs)
         ck.obligation(ok_if)
         names = [e.name for e in ents_h]
-        want_templates = {"Top"} | {"Leaf" + kd for kd in kinds} | {"Mid" + ("C" if mids[i] == "ctx" else "") + net.cells[i][0] for i in mids}
-        once = sorted(names) == sorted(want_templates)
+        want_templates = {"Top"} | {lname(kd) for kd in kinds} | {"Mid" + ("C" if mids[i] == "ctx" else "") + net.cells[i][0] for i in mids}
+        once = len(names) == len(want_templates) and all(any(emitted_matches(n_, w_) for n_ in names) for w_ in want_templates)
         ck.obligation(once)
         if not once:
             ck.violation({"case": name, "templates": "count"}, "entity templates are not emitted exactly once each",
